@@ -110,17 +110,22 @@ def run_sys(case):
     if r.get("deadlock") is not None or not p or "t0" not in p:
         return {"error": f"run did not finish: {r.get('deadlock')}", "outcome": r.get("outcome")}
     fx = lambda h: Fraction(float.fromhex(h))                                           # noqa: E731
-    steps = [s for s in p["steps"] if s[2] is not None]
-    n = min(len(steps), len(p["after_adjust"]) + 1, 40)
-    ticks, prev = [], fx(p["raw0"])
+    kq = Fraction(case["k"][0], case["k"][1])
+    steps = [s for s in p["steps"] if s[2] is not None and len(s) > 3]
+    aas = p.get("after_adjust_sys") or []
+    n = min(len(steps), len(aas) + 1, 40)
+    # the step durations and the loop overheads are measured on the SYSTEM clock (and divided by the scale): time spent
+    # paused between two steps does not enter them, which is what the property says about pauses
+    ticks, prev = [], fx(p["t0"])
     for i in range(n):
-        T, rb, re = (fx(x) for x in steps[i])
-        ticks.append({"eps": rb - prev, "dur": re - rb})
-        if i < len(p["after_adjust"]):
-            prev = fx(p["after_adjust"][i])
+        T, Te = fx(steps[i][0]), fx(steps[i][3])
+        ticks.append({"eps": (T - prev) / kq, "dur": (Te - T) / kq})
+        if i < len(aas):
+            prev = fx(aas[i])
     q = lambda x: [x.numerator, x.denominator]                                           # noqa: E731
     return {"t0": q(fx(p["t0"])), "starts": [q(fx(s[0])) for s in steps[:n]], "ref_starts": [q(fx(s[0])) for s in steps[:n]],
-            "derived_ticks": [{"pause": [0, 1], "eps": q(t["eps"]), "dur": q(t["dur"])} for t in ticks], "outcome": r.get("outcome")}
+            "derived_ticks": [{"pause": [0, 1], "eps": q(t["eps"]), "dur": q(t["dur"])} for t in ticks], "outcome": r.get("outcome"),
+            "pauses": sum(1 for e in (r.get("trace") or []) if e[1] == "clock_pause")}
 
 
 def main():
